@@ -395,6 +395,12 @@ func AFMs() []Input {
 		{Name: "library-written", Kind: "afm", Data: b.Bytes()},
 		{Name: "hand-written-crlf", Kind: "afm", Data: []byte(hand)},
 		{Name: "many-glyphs", Kind: "afm", Data: []byte(long.String())},
+		// line ends of every kind in one file (a lone CR between two keys and between
+		// two glyph records, CR LF, LF, LF CR): whatever a lone CR is taken for, it
+		// is the same however the bytes arrive
+		{Name: "mixed-line-ends", Kind: "afm", Data: []byte("StartFontMetrics 4.1\nFontName Mixed\rFullName Mixed Line Ends\nVersion 1\r\nNotice n\n\rStartCharMetrics 4\n" +
+			"C 65 ; WX 700 ; N A ; B 10 0 690 700 ;\rC 66 ; WX 600 ; N B ; B 0 0 590 700 ;\nC 67 ; WX 500 ; N C ; B 0 0 490 700 ;\r\nC 68 ; WX 400 ; N D ; B 0 0 390 700 ;\n" +
+			"EndCharMetrics\rEndFontMetrics\n")},
 	}
 }
 
